@@ -25,6 +25,7 @@ C = 'pybufrkit/constants.py'
 D = 'pybufrkit/descriptors.py'
 U = 'pybufrkit/utils.py'
 E = 'pybufrkit/encoder.py'
+M = 'pybufrkit/mdquery.py'
 
 MUTS = [
     # ---- stage A: constants ------------------------------------------------------------------
@@ -91,6 +92,16 @@ MUTS = [
     ('D5', 'unsupported', 'C02', E, "binx = bin(x)[2:]", "binx = '{:b}'.format(x)"),
     ('D6', 'preserve', 'C02', E, "    nbits = len(binx)\n", "    nbits = 0\n    nbits += len(binx)\n"),
     ('D7', 'preserve', 'C02', E, "    if binx.count('1') == len(binx):\n        nbits += 1", "    if binx.count('0') == 0:\n        nbits += 1"),
+    # mdquery.py MetadataExprParser.parse
+    ('E1', 'change', 'C17', M, "metadata_expr[1:].split('.')", "metadata_expr.split('.')"),
+    ('E2', 'change', 'C17', M, "metadata_expr = metadata_expr.strip()", "metadata_expr = metadata_expr.lstrip()"),
+    ('E3', 'change', 'C17', M, "            section_index = None\n", "            section_index = 0\n"),
+    ('E4', 'change', 'C17', M, "            except ValueError:\n", "            except IndexError:\n"),
+    ('E5', 'change', 'C17', M, "            metadata_name = metadata_expr[1:]\n", "            metadata_name = metadata_expr[2:]\n"),
+    ('E6', 'unsupported', 'C17', M, "section_index = int(section_index)", "section_index = int(section_index, 10)"),
+    ('E7', 'preserve', 'C17', M, "            section_index = None\n            metadata_name = metadata_expr[1:]\n",
+     "            metadata_name = metadata_expr[1:]\n            section_index = None\n"),
+    ('E8', 'preserve', 'C17', M, "if '.' in metadata_expr:", "if metadata_expr.count('.') > 0:"),
 ]
 
 
